@@ -66,6 +66,18 @@ def test_rangemodel():
     check("limits-half", M.limits([(3, None), (-2, 0)]), (-2, None))
 
 
+def test_rowmodel_distinct_rules():
+    from cpverif.models import rowmodel as RM
+
+    c = {"field": "k", "op": ">=", "n": 1, "more": [["and", "<=", 2]]}
+    check("distinct-rule-text", RM.distinct_rule(c), "k >= 1 and k <= 2")
+    check("distinct-and-in", RM.distinct_holds(c, 2), True)
+    check("distinct-and-out", RM.distinct_holds(c, 3), False)
+    c = {"field": "k", "op": "==", "n": 1, "more": [["or", "==", 3], ["and", "!=", 3]]}
+    check("distinct-or-and-precedence", [RM.distinct_holds(c, n) for n in (0, 1, 3)], [False, True, False])
+    check("distinct-plain", RM.distinct_holds({"field": "k", "op": "<", "n": 2}, 1), True)
+
+
 def run_all():
     for name, fn in sorted(globals().items()):
         if name.startswith("test_") and callable(fn):
